@@ -85,6 +85,7 @@ func NewClientWithLogger(
 		make(map[string]*executionEntry),
 		make(map[string]chan<- schema.Input),
 		sync.Mutex{},
+		sync.Mutex{},
 		false,
 		false,
 		ctx,
@@ -117,7 +118,8 @@ type client struct {
 	runningStepResultEntries         map[string]*executionEntry     // Run ID to results
 	runningStepEmittedSignalChannels map[string]chan<- schema.Input // Run ID to channel of signals emitted from steps
 	mutex                            sync.Mutex
-	readLoopRunning                  bool // To prevent duplicate loops across multiple step executions.
+	encoderMutex                     sync.Mutex // Serializes writes to the encoder.
+	readLoopRunning                  bool       // To prevent duplicate loops across multiple step executions.
 	done                             bool
 	context                          context.Context
 	cancelFunc                       context.CancelFunc
@@ -125,8 +127,11 @@ type client struct {
 }
 
 func (c *client) sendCBOR(message any) error {
-	c.mutex.Lock()
-	defer c.mutex.Unlock()
+	// A lock of its own, not c.mutex: a write can block until the plugin reads, and the read loop needs c.mutex to
+	// deliver results. If the writer held c.mutex while the plugin in turn waits for the client to read its
+	// output (unbuffered or full pipes), neither side could make progress.
+	c.encoderMutex.Lock()
+	defer c.encoderMutex.Unlock()
 	return c.encoder.Encode(message)
 }
 
